@@ -55,9 +55,10 @@ Lemma ex_opus_save :
   ogg_load ex_opus_saved OOpus = Ok (ex_tags, -1) /\ ogg_open ex_opus_saved OOpus = Ok ([109; 117], [1; 200]).
 Proof. repeat split; vm_compute; reflexivity. Qed.
 
-(* ---- the alignment hypothesis of C01 is needed: OggVorbis._inject finds its page by content, in any stream -------- *)
+(* ---- regression: the page search is restricted to the stream of the identification header ------------------------ *)
 (* stream 9 (some other codec) has a page whose first packet starts with "\x03vorbis", in front of the comment page of
-   the Vorbis stream 5 *)
+   the Vorbis stream 5.  Before the fix of /repo (oggvorbis.py / oggtheora.py _inject) save() overwrote that packet and
+   the tags were not saved; now the comment of stream 5 is replaced and stream 9 is untouched. *)
 Definition ex_bait_pages : list page :=
   [ mkPage 0 2 0 5 0 true [ogg_f_vorbis1 ++ zeros 23];
     mkPage 0 2 0 9 0 true [[102; 105; 115; 104]];
@@ -69,12 +70,11 @@ Definition ex_bait : list Z := render_all ex_bait_pages.
 Definition ex_bait_saved : list Z := Eval vm_compute in unwrap (ogg_save ex_bait OVorbis ex_tags (Some (cb_const 0))).
 Definition ex_bait_saved_pages : list page := Eval vm_compute in match ogg_parse ex_bait_saved with Ok l => l | Raise _ => [] end.
 
-Lemma ex_bait_wrong_stream :
-  ogg_wf ex_bait = true /\ vc_valid ex_tags = true /\ ogg_load ex_bait OVorbis = Ok (ex_old, 3) /\
+Lemma ex_bait_regression :
+  ogg_wf ex_bait = true /\ ogg_load ex_bait OVorbis = Ok (ex_old, 3) /\
   ogg_save ex_bait OVorbis ex_tags (Some (cb_const 0)) = Ok ex_bait_saved /\ ogg_wf ex_bait_saved = true /\
-  ogg_load ex_bait_saved OVorbis = Ok (ex_old, 3) /\
+  ogg_load ex_bait_saved OVorbis = Ok (ex_tags, 0) /\
   ogg_parse ex_bait_saved = Ok ex_bait_saved_pages /\
   ogg_f_tagged OVorbis ex_bait_pages = Some 5 /\
-  filter (ogg_f_is_serial 5) ex_bait_saved_pages = filter (ogg_f_is_serial 5) ex_bait_pages /\
-  ogg_f_stream_packets 9 ex_bait_saved_pages <> ogg_f_stream_packets 9 ex_bait_pages.
-Proof. repeat split; try (vm_compute; reflexivity). vm_compute. discriminate. Qed.
+  filter (ogg_f_is_serial 9) ex_bait_saved_pages = filter (ogg_f_is_serial 9) ex_bait_pages.
+Proof. repeat split; vm_compute; reflexivity. Qed.
